@@ -53,8 +53,12 @@ Definition ctr_match_prefix (sel : list ematcher) (c : container) : bool :=
 
 Definition selected (sel : list ematcher) (inv : list container) : list container := filter (ctr_match sel) inv.
 
-(** openLog: since / until = the engine's window truncated to whole seconds, as decimal text *)
-Definition log_opts (start_ns end_ns : Z) : bytes * bytes := (dec (start_ns / 1000000000), dec (end_ns / 1000000000)).
+(** openLog: since / until = the engine's window in whole seconds, as decimal text: the start rounded down and (since the fix of
+    D35) the end rounded UP, so that the window asked for is never narrower than the engine's *)
+Definition ceil_sec (ns : Z) : Z := (ns + 999999999) / 1000000000.
+Definition log_opts (start_ns end_ns : Z) : bytes * bytes := (dec (start_ns / 1000000000), dec (ceil_sec end_ns)).
+(** before the fix of D35: both bounds rounded down *)
+Definition log_opts_floor (start_ns end_ns : Z) : bytes * bytes := (dec (start_ns / 1000000000), dec (end_ns / 1000000000)).
 
 (** * Reading: every selected container's stream is decoded (C03) and the streams are merged (C04) *)
 Record src := { s_idx : nat; s_recs : list frec; s_err : bool; s_hit : bool }.
